@@ -160,6 +160,9 @@ func init() {
 			spec.fixed = append(spec.fixed, mkShapeProgram("O"+itoa(100+i), sh))
 		}
 		spec.fixed = append(spec.fixed, loopRerunTable()...)
+		ops := yieldOperandTable()
+		spec.fixed = append(spec.fixed, ops...)
+		rs.exh = append(rs.exh, "yield operand table: "+itoa(len(ops))+" programs (operand kind x position of the yield as first statement of a delayed block; the state the operand reads changes between evaluations)")
 		rs.runDiff(spec)
 	}}
 
@@ -202,6 +205,7 @@ func init() {
 		table := rangeTable()
 		table = append(table, rangeShapePrograms()...)
 		table = append(table, iteratorValuePrograms()...)
+		table = append(table, yieldOperandTable()...)
 		spec := &diffSpec{
 			profiles: []*profile{rangeProfile()}, batchSize: 40, batches: rs.vol(12, 400),
 			fixed: table,
